@@ -417,6 +417,8 @@ def cnf_formula(rng):
         ('bvule', None, (b2[1], B.BVc(2, 2))),
         B.App('fb', B.FUN(B.BOOL, (B.BV(1),)), (b1[0],)),
         ('eq', None, (('ite', None, (p[0], b1[0], b1[1])), B.BVc(1, 1))),
+        # a Boolean-valued select is an atom too
+        ('select', None, (B.Sym('ab1', B.ARR(B.BV(1), B.BOOL)), b1[0])),
     ]
     # arithmetic atoms in the shapes the simplifier rewrites (negative
     # literals are built as Not(a).simplify() by the converters)
